@@ -45,6 +45,11 @@ void go(Rng& rng)
                 VH_RUN(((x / y) * y + x % y == x), print_tv)
             }
 #endif
+#if defined(SEC_C02Q)
+            if constexpr (RX == 2 && sizeof(R1) <= 8 && sizeof(R2) <= 8) {
+                SHEAD("C02", "quot", "q") VH_RUN(cnl::quotient(x, y), print_sc)
+            }
+#endif
 #if defined(SEC_C03)
             { SHEAD("C03", "cmp", "lt") VH_RUN(x < y, print_tv) }
             { SHEAD("C03", "cmp", "le") VH_RUN(x <= y, print_tv) }
